@@ -76,6 +76,12 @@ CHECKS = {
         note="Trusted base: dependency model D (percent-encoder, URL join, markup order), tokenizer T, expand() of C09; Tag rendering itself is the subject of C01-C07.",
         ref="2/C11",
     ),
+    "C12": dict(
+        technique="property-based file-system round-trip with fault injection: Hypothesis dependency definitions with hostile file names on real temporary source trees (directory / synthetic package / libtest / URL / none), every libdir / include_version / caller / pre-existing-target state; URLs checked against the harness's own percent-encoder, written file re-read by the tokenizer and every local URL resolved to a byte-identical copied file; deleted listed files must make copy_to/save_html raise with the target untouched",
+        text="Seeded generated-input and fault search against a file-system oracle (URL -> path -> bytes), with stale-target, bystander-directory and all_files tree-equality checks. Level: fault_enumeration over the generated subsets of missing files plus exploration of definitions/configurations.",
+        note="Trusted base: harness percent-encoder (cross-checked with urllib at start-up), urllib.parse.urlsplit/unquote for resolving, tokenizer T; Linux / UTF-8 / case-sensitive file system; temp dirs removed per case.",
+        ref="2/C12",
+    ),
 }
 
 PENDING_REASON = "check not built yet in this revision (work in progress; see DESIGN.md section 2 for the planned generator and oracle)"
